@@ -7,8 +7,8 @@ LEVEL = 'other'
 EXPLANATION = ('LANG rules over the inlined MIR event graph of every source and every Observer impl: '
                'S1 each basic source delivers exactly its documented notification shape (of = next complete, never = nothing, ...); '
                'S2 error() forwards the error as the only downstream event (no item, aggregate or completion with it) and never swallows it; '
-               'S3 complete() delivers next* then exactly one complete; S5 is_finished answers true only for an empty slot or a finished downstream (otherwise a hot source skips the operator at its terminal); S6 the take_last/skip_last queues are first-in-first-out; S7 the take_last queue never holds more than `count` items after next(), for every count >= 0 (interval abstract interpretation of len - count); S4 next() never sends an error and completes downstream only in the '
-               'tabled early terminators. Decides the termination shape on every path; does not decide which items, their order or counts.')
+               'S3 complete() delivers next* then exactly one complete; S5 is_finished answers true only for an empty slot or a finished downstream (otherwise a hot source skips the operator at its terminal); S6 the take_last/skip_last queues are first-in-first-out; S7 the take_last queue never holds more than `count` items after next(), for every count >= 0 (interval abstract interpretation of len - count); S8 the next() bodies of take, skip, skip_last, filter, take_while and skip_while agree with their definitions path by path (decision tables over the counter/bound difference, the predicate result and the mode flags; both directions); S4 next() never sends an error and completes downstream only in the '
+               'tabled early terminators. Decides the termination shape on every path and, for the six tabled counting/predicate operators, which items are forwarded; does not decide the values computed by user closures, accumulators, equality tests or the derived-operator compositions.')
 ASSUMPTIONS = ['value-level results of user closures, counters and predicates are not decided']
 TECHNIQUE = 'static analysis: regular-language inclusion of downstream event words over MIR event graphs (custom rustc_private driver)'
 
@@ -96,11 +96,12 @@ CONTROLS = [
     'S5|<verif_controls::ConstFinishedObserver<O> as Observer>::is_finished',
     'S6|src/verif_controls.rs field `stack`',
     'S7|<verif_controls::RingLast<O, Item> as Observer>::next',
+    'S8|<verif_controls::OffByOneTake<O> as Observer>::next',
 ]
 
 
 def check(cx):
-    return s1(cx) + s234(cx) + s5(cx) + s6(cx) + s7(cx)
+    return s1(cx) + s234(cx) + s5(cx) + s6(cx) + s7(cx) + s8(cx)
 
 
 def _src_event(n):
@@ -240,4 +241,192 @@ def s7(cx):
         for t in BOUNDED:
             if t not in seen:
                 res.append(Finding(ID, 'S7', 'table:' + t, False, 'bounded-queue observer not found (fail closed)'))
+    return res
+
+
+# ---- S8: decision tables of the counting / predicate operators (definition of next(), checked path by path)
+def _spec_take(s):
+    if s['bad']:
+        return s['bad']
+    if s['empty']:
+        return None if s['emit'] == 0 and not s['complete'] else 'acts although the downstream slot is empty'
+    if s['emit'] > 0:
+        if s['emit'] != 1 or s['other']:
+            return 'forwards the item more than once'
+        if not (s['hi'] is not None and s['hi'] <= -1):
+            return 'forwards an item although the quota may already be used up (hits >= count)'
+        if s['k'] != 1:
+            return 'forwards an item without counting it exactly once'
+        if s['complete'] and not (s['lo'] == -1 and s['hi'] == -1):
+            return 'completes although the quota is not exactly reached'
+        if not s['complete'] and not (s['hi'] <= -2):
+            return 'does not complete when the item that fills the quota is forwarded'
+        return None
+    if not (s['lo'] is not None and s['lo'] >= 0):
+        return 'drops an item although the quota is not used up (hits < count)'
+    if s['k'] != 0 or s['complete']:
+        return 'counts or completes on a path that forwards nothing'
+    return None
+
+
+def _spec_skip(s):
+    if s['bad']:
+        return s['bad']
+    if s['k'] != 1:
+        return 'an incoming item is not counted exactly once'
+    if s['emit'] > 1 or s['other'] or s['complete']:
+        return 'forwards more than the incoming item / terminates from next()'
+    if s['emit'] == 1 and not (s['lo'] is not None and s['lo'] >= 0):
+        return 'forwards an item that is among the first `count` (must be skipped)'
+    if s['emit'] == 0 and not (s['hi'] is not None and s['hi'] <= -1):
+        return 'drops an item that comes after the first `count`'
+    return None
+
+
+def _spec_skip_last(s):
+    if s['bad']:
+        return s['bad']
+    if s['emit'] > 1 or s['other'] or s['complete']:
+        return 'releases more than one held-back item / terminates from next()'
+    if s['emit'] == 1 and not (s['lo'] == 0 and s['hi'] == 0 and s['k'] == 0):
+        return 'releases an item while fewer than `count` items are held back'
+    if s['emit'] == 0 and not (s['lo'] is not None and s['lo'] >= 1 and s['k'] == -1):
+        return 'holds an item back without counting it down exactly once, or although `count` items are already held back'
+    return None
+
+
+def _spec_filter(s):
+    if s['pred'] is None:
+        return 'the item is handled on a path that never asked the predicate'
+    if s['emit'] > 1 or s['other'] or s['complete']:
+        return 'forwards more than the incoming item / terminates from next()'
+    if (s['emit'] == 1) != (s['pred'] == 1):
+        return 'forwards the item exactly when the predicate is false' if s['pred'] == 0 else 'drops an item the predicate accepted'
+    return None
+
+
+def _spec_take_while(s):
+    if s['empty']:
+        return None if s['emit'] == 0 and not s['complete'] else 'acts although the downstream slot is empty'
+    if s['pred'] is None:
+        return 'the item is handled on a path that never asked the predicate'
+    if s['emit'] > 1 or s['other']:
+        return 'forwards the item more than once'
+    if s['pred'] == 1:
+        return None if (s['emit'] == 1 and not s['complete']) else 'an accepted item must be forwarded and the stream go on'
+    incl = s['flags'].get('inclusive')
+    if not s['complete']:
+        return 'the first rejected item must complete the stream'
+    if incl is None:
+        return 'the rejected item is handled without consulting the inclusive flag'
+    if (s['emit'] == 1) != (incl == 1):
+        return 'the rejected item is forwarded exactly when inclusive is false'
+    return None
+
+
+def _spec_skip_while(s):
+    done = s['flags'].get('done')
+    if s['emit'] > 1 or s['other'] or s['complete']:
+        return 'forwards more than the incoming item / terminates from next()'
+    if done == 1:
+        return None if s['emit'] == 1 else 'drops an item after skipping is over'
+    if done is None:
+        return 'the item is handled without consulting the done-skipping flag'
+    if s['pred'] is None:
+        return 'while skipping, the item is handled without asking the predicate'
+    if s['pred'] == 1:
+        return None if (s['emit'] == 0 and s['sets'].get('done') != 1) else 'an item the predicate still matches must be skipped and skipping must go on'
+    return None if (s['emit'] == 1 and s['sets'].get('done') == 1) else 'the first item the predicate rejects must be forwarded and end the skipping'
+
+
+S8_TABLE = {
+    'ops::take::TakeObserver': ('take', _spec_take),
+    'ops::skip::SkipObserver': ('skip', _spec_skip),
+    'ops::skip_last::SkipLastObserver': ('skip_last', _spec_skip_last),
+    'ops::filter::FilterObserver': ('filter', _spec_filter),
+    'ops::take_while::TakeWhileObserver': ('take_while', _spec_take_while),
+    'ops::skip_while::SkipWhileObserver': ('skip_while', _spec_skip_while),
+}
+
+
+def s8(cx):
+    from ..tables import summaries
+    from ..core import witness, interesting_default, Incomplete
+    from ..expr import access_path, strip
+    F = cx.facts
+    res = []
+    seen = set()
+    for im in cx.observer_impls():
+        tag = roles.impl_tag(cx, im)
+        ent = S8_TABLE.get(tag)
+        if cx.control and tag == 'verif_controls::OffByOneTake':
+            ent = ('take', _spec_take)
+        if ent is None:
+            continue
+        kind, spec = ent
+        seen.add(tag)
+        fn = cx.method(im, 'next')
+        g = cx.graph(fn['key'])
+        label = cx.label(fn)
+        fields = roles.adt_fields(cx, tag)
+        usizes = [f for f, t in fields if F.tystr(t) == 'usize']
+        bools = [f for f, t in fields if F.tystr(t) == 'bool']
+        written = set()
+        for x in g.nodes:
+            if x['kind'] == 'assign':
+                root, steps = access_path(x['lhs'])
+                if root[0] == 'arg' and root[1] == 1 and steps:
+                    written.add(steps[-1])
+        slots = {'self.' + f for f, t in fields if roles.is_option_of(F, F.ty(t))}
+        kw = dict(slot_classes=slots)
+        if kind in ('take', 'skip'):
+            zero = set()
+            for fn0 in F.fns.values():
+                for b0 in fn0['blocks']:
+                    for s0 in b0['s']:
+                        if s0['k'] == 'assign' and s0['rv']['r'] == 'agg' and s0['rv'].get('ak') == 'adt' and s0['rv']['p'] == tag:
+                            for nm, op in zip(s0['rv'].get('fn', []), s0['rv']['ops']):
+                                if op['o'] == 'const' and str(op.get('v', '')).replace('const ', '').startswith('0_usize'):
+                                    zero.add(nm)
+            cnt = [f for f in usizes if f in written or f in zero]
+            bnd = [f for f in usizes if f not in cnt]
+            if len(cnt) != 1 or len(bnd) != 1:
+                raise Incomplete('cannot tell counter from bound among the usize fields %s of %s' % (usizes, tag))
+            kw.update(counter=cnt[0], bound=bnd[0])
+        elif kind == 'skip_last':
+            if len(usizes) != 1:
+                raise Incomplete('expected one usize field in %s' % tag)
+            kw.update(counter=usizes[0], bound_const=0, init_lo=0)
+        elif kind == 'take_while':
+            if len(bools) != 1:
+                raise Incomplete('expected one bool field in %s' % tag)
+            kw.update(flag_fields=(bools[0],))
+        elif kind == 'skip_while':
+            if len(bools) != 1:
+                raise Incomplete('expected one bool field in %s' % tag)
+            kw.update(flag_fields=(bools[0],))
+        sums, pred = summaries(g, **kw)
+        bad = None
+        for sm, key in sums:
+            if kind in ('take_while', 'skip_while') and bools:
+                # present the (only) flag under a fixed name to the spec
+                nm = 'inclusive' if kind == 'take_while' else 'done'
+                sm['flags'] = {nm: sm['flags'].get(bools[0])} if bools[0] in sm['flags'] else {}
+                sm['sets'] = {nm: sm['sets'].get(bools[0])} if bools[0] in sm['sets'] else {}
+            why = spec(sm)
+            if why:
+                bad = (why, key, sm)
+                break
+        if not sums:
+            bad = ('next() has no returning path', None, None)
+        if bad:
+            why, key, sm = bad
+            res.append(Finding(ID, 'S8', label, False, '%s does not follow its definition: %s' % (kind, why), fn['span'],
+                               witness(g, pred, key, interesting_default) if key else []))
+        else:
+            res.append(Finding(ID, 'S8', label, True, '%d path classes of next() agree with the definition of %s' % (len(sums), kind), fn['span']))
+    if not cx.control:
+        for t in S8_TABLE:
+            if t not in seen:
+                res.append(Finding(ID, 'S8', 'table:' + t, False, 'operator not found (fail closed)'))
     return res
